@@ -39,6 +39,9 @@ def seeded_table():
         if len(what) > 150: what = what[:147] + "..."
         if "error" in r:
             rows.append(f"| {s} | {what} | | error: {r['error'][:60]} | | |"); continue
+        if not r["breaks"]:
+            rows.append(f"| {s} | {what} | none on the repaired tree (originally {','.join(meta.get('originally_breaks', []))}; superseded by a fix, see meta.json) | {','.join(r['detected_by'])} | | |")
+            continue
         tgt = r["breaks"][0]
         ch = r["checks"].get(tgt, {})
         ob = (ch.get("obligations") or [""])[0]
